@@ -442,12 +442,38 @@ func (rr *restartRun) valueTouchedByEndedHold(k string, o *CanonKey) bool {
 		for _, h := range o.Holds {
 			// the same LockId may hold the key again: the request belongs to the current hold only
 			// if it was answered no earlier than that hold began
-			if h.Lid == lid && r.Replies[0].T.Unix() >= h.Start {
+			// (after a restart the hold's start is the load time: there the request belongs to the
+			// current hold if nothing ended that LockId's hold after it)
+			if h.Lid == lid && (r.Replies[0].T.Unix() >= h.Start || !rr.holdEndedAfter(r)) {
 				held = true
 			}
 		}
 		if !held {
 			return true
+		}
+	}
+	return false
+}
+
+// holdEndedAfter: was the hold that request r belongs to (its key and LockId) ended, as far as the
+// history shows, after r was answered: by an unlock that left no level, by an unlock-first of
+// anybody, or by an expiry notice.
+func (rr *restartRun) holdEndedAfter(r *ReqRec) bool {
+	after := r.Replies[0].Ev
+	for _, q := range rr.h.order {
+		if q.Op.Db != r.Op.Db || q.Op.Key != r.Op.Key {
+			continue
+		}
+		for _, rep := range q.Replies {
+			if rep.Ev <= after {
+				continue
+			}
+			switch {
+			case q.Op.Cmd == protocol.COMMAND_UNLOCK && rep.Result == protocol.RESULT_SUCCED && (q.Op.Lid == r.Op.Lid || q.Op.Flag&protocol.UNLOCK_FLAG_UNLOCK_FIRST_LOCK_WHEN_UNLOCKED != 0) && rep.LRCount == 0:
+				return true
+			case q.Op.Cmd == protocol.COMMAND_LOCK && q.Op.Lid == r.Op.Lid && rep.Result == protocol.RESULT_EXPRIED:
+				return true
+			}
 		}
 	}
 	return false
